@@ -72,7 +72,7 @@ CLAIMED = {
             'Trusted: TLC/SANY, the projection (harness/project.py: integers, rationals with denominator <= 100, hex otherwise), the argument conversion in harness/core_driver.py. Values are exact rationals; cells whose exact value cannot be identified from the float (denominator > 100, float32 magnitude > 2000, float32 variance, 32-bit overflow guards Dec_*) are not decided. Plotting, projections (pyproj missing) and xarray export are out of reach.',
             'stack traces validated against ConcatArr'),
     'C03': ('5/C03, 3.1',
-            'Exp_apply (exact rational reducers sum/min/max/mean/var with masked cells excluded, callables diff/reverse/sub-sampling/cumsum/convolutions along the axis) is evaluated by TLC for every apply step; for several dimensions the result must equal the evaluation in some order of the axes (for commuting reducers the set is a singleton); a dedicated family reduces every pair/triple of dimensions of every template in one call with one reducer name, directly and after a mask() step; dimension and coordinate lengths follow the function output length.',
+            'Exp_apply (exact rational reducers sum/min/max/mean/var with masked cells excluded, callables diff/reverse/sub-sampling/cumsum/convolutions along the axis) is evaluated by TLC for every apply step; for several dimensions the result must equal the evaluation in some order of the axes (for commuting reducers the set is a singleton); a dedicated family reduces every pair/triple of dimensions of every template in one call with one reducer name, directly and after a mask() step; every dimension of every template also goes through the string forms reduce_dim / convolve_dim, and command lines made of -r / -c options through the pipeline model (spec/Pipeline.tla); dimension and coordinate lengths follow the function output length.',
             'Trusted: TLC/SANY, the projection (harness/project.py: integers, rationals with denominator <= 100, hex otherwise), the argument conversion in harness/core_driver.py. Values are exact rationals; cells whose exact value cannot be identified from the float (denominator > 100, float32 magnitude > 2000, float32 variance, 32-bit overflow guards Dec_*) are not decided. Plotting, projections (pyproj missing) and xarray export are out of reach.',
             'apply traces validated against exact reducers'),
     'C02': ('5/C02, 3.1',
